@@ -158,6 +158,10 @@ class CellMeasure(
         if measure is not None:
             out.append(f"{name}.set_measure({measure!r})")
 
+        if self.nc_get_external():
+            # The cell measure is stored in an external file
+            out.append(f"{name}.nc_set_external(True)")
+
         if string:
             indent = " " * indent
             out[0] = indent + out[0]
